@@ -758,3 +758,21 @@ mod tests {
             .is_err());
     }
 }
+
+/// Accessors to private EIP-712 helpers for verification harnesses.
+#[cfg(feature = "verif-hooks")]
+pub mod verif_hooks {
+    use super::*;
+
+    /// Returns the `encodeType` string for `kind` given a JSON `types` object.
+    pub fn encode_type(types: &str, kind: &str) -> Result<String> {
+        let types = serde_json::from_str::<Types>(types)?;
+        types.encode_type(kind)
+    }
+
+    /// Returns the debug and display images of a parsed member type string.
+    pub fn member_kind_image(value: &str) -> (String, String) {
+        let kind = MemberKind::from_str(value);
+        (format!("{kind:?}"), kind.to_string())
+    }
+}
